@@ -13,6 +13,10 @@ CHECKS = {
    text="differential restart monitor on a complete in-process node: seeded sequences over all ClientRequest kinds through raft.client_write, compactions placed between writes (awaited) or running concurrently (raft core's own policy), SIGKILL at quiescent points behind a recovery barrier, restart from the same directory; dumps through the public actor queries (config GET/history/listing, namespaces, users table, MCP, persistent instances) must be equal and every raft sequence must continue at the expected id; interrupted-compaction scenario with a partial snapshot file under the next id",
    note="quiescent stop points only; instance timestamps/health and TTL caches excluded; differential oracle (no behavioural model)",
    technique="runtime differential monitoring (state dump before stop vs after restart) over seeded histories and restart/compaction placements"),
+ "C07": dict(level="exploration", design="DESIGN.md 3/C07",
+   text="three-way differential monitor: one seeded committed request sequence (all state-machine ClientRequest kinds) is applied through the leader path (append + apply_entry_to_state_machine per entry), the follower path (replicate_to_log + replicate_to_state_machine in random batch splits) and the start-up replay path (restart of the follower's directory) of raft-idle in-process nodes; the three dumps taken through the public actor queries must be equal",
+   note="NodeAddr/Members left out (C05); timestamps/health excluded; trusts mailbox-order barriers (one query per component actor) before dumping",
+   technique="runtime differential monitoring across the three apply paths on seeded request sequences"),
  "C02": dict(level="exploration", design="DESIGN.md 3/C02",
    text="history + executable model: seeded histories of append / batch / delete-from / compaction pointer / reopen (new process) run on the real FileStore actor chain; a reference vector updated by acknowledged operations is compared with get_log_entries / get_initial_state after every step and every reopen; includes roll-over histories (2.6e5 records) and arithmetic record sizes",
    note="quiescent stop points only (crash points are C04); entries at or below a submitted compaction pointer may be absent; trusts the python model in lib/storerig.py",
